@@ -64,6 +64,9 @@ def ghe_case(draw, kind=None, max_n=400, months=None, n_heights=None, families=N
         "max_eft": draw(st.floats(25.0, 40.0)),
         "min_eft": draw(st.floats(-5.0, 10.0)),
         "system_flow": draw(st.booleans()),
+        # used by sizing checks: loads are rescaled so that the excess vanishes at hmin + size_frac (hmax - hmin), times size_u
+        "size_frac": draw(st.floats(0.05, 0.95)),
+        "size_u": draw(st.sampled_from([1.0, 1.0, 1.0, 0.2, 5.0])),
     }
 
 
@@ -90,3 +93,22 @@ def make_ghe(case, hourly=None, g_function=None):
         warnings.simplefilter("ignore")
         ghe = GHE(v_sys, bsp, m["bhe_type"], m["fluid"], b, m["pipe"], m["grout"], m["soil"], g_function, sim, hourly)
     return ghe, m, coords, hourly
+
+
+def calibrated_hourly(case):
+    """hourly loads rescaled (temperatures are linear in the loads) so that a GHE built from ``case`` has zero excess at
+    hmin + size_frac (hmax - hmin); multiplied by size_u to also reach the clamped outcomes"""
+    from ghedesigner.enums import TimestepType
+
+    base = gl.expand(case["loads"])
+    ghe, _, _, _ = make_ghe(case, hourly=base)
+    h = case["hmin"] + case.get("size_frac", 0.5) * (case["hmax"] - case["hmin"])
+    ghe.bhe.b.H = h
+    with warnings.catch_warnings():
+        warnings.simplefilter("ignore")
+        mx, mn = ghe.simulate(method=TimestepType.HYBRID)
+    ugt = case["bhe"]["soil"]["ugt"]
+    up = (case["max_eft"] - ugt) / max(float(mx) - ugt, 1e-12)
+    dn = (ugt - case["min_eft"]) / max(ugt - float(mn), 1e-12)
+    lam = min(up, dn) * case.get("size_u", 1.0)
+    return [x * lam for x in base]
